@@ -466,7 +466,13 @@ func (vfs *OrefaFS) Mkdir(name string, perm fs.FileMode) error {
 
 	if !parentOk {
 		for !parentOk {
-			dirName, _ = avfs.SplitAbs(vfs, dirName)
+			up, _ := avfs.SplitAbs(vfs, dirName)
+			if up == dirName {
+				// the volume of the path does not exist.
+				return &fs.PathError{Op: op, Path: name, Err: vfs.err.NoSuchDir}
+			}
+
+			dirName = up
 			parent, parentOk = vfs.nodes[dirName]
 		}
 
@@ -530,7 +536,13 @@ func (vfs *OrefaFS) MkdirAll(path string, perm fs.FileMode) error {
 
 		ds = append(ds, dirName)
 
-		dirName, _ = avfs.SplitAbs(vfs, dirName)
+		up, _ := avfs.SplitAbs(vfs, dirName)
+		if up == dirName {
+			// the volume of the path does not exist.
+			return &fs.PathError{Op: op, Path: path, Err: vfs.err.NoSuchDir}
+		}
+
+		dirName = up
 	}
 
 	// ds lists the missing directories from the deepest one to the one closest to parent :
